@@ -292,7 +292,7 @@ def _table(rows, width, start_index, fill_mode, fill_value=-999, pad_front=False
 
 
 def ugrid(ny=2, nx=3, *, split=(), merge=(), start_index=0, fill='auto', transposed=False,
-          tables=(), edge_dimension='auto', coords_as='vars', face_coords=False, time=2, extra=True,
+          tables=(), edge_dimension='auto', edge_values=True, coords_as='vars', face_coords=False, time=2, extra=True,
           jitter=0.0, two_name='Two', face_dimension_attr=True, edge_transposed=False, mesh=None, edge_order='first-seen', depth=0,
           edge_face_missing_first=False, latitude_first=False):
     """tables: subset of {'edge_node','face_edge','edge_face','face_face'} to supply.
@@ -369,7 +369,7 @@ def ugrid(ny=2, nx=3, *, split=(), merge=(), start_index=0, fill='auto', transpo
         data_vars['flipped'] = xarray.DataArray(_data((nface,) + tuple(tshape), 0.5), dims=['nMesh2_face'] + tdims)
         data_vars['node_val'] = xarray.DataArray(_data((nnode,), 0.25), dims=['nMesh2_node'])
         data_vars['count'] = xarray.DataArray(_data((nface,)).astype('int32'), dims=['nMesh2_face'])
-        if 'edge_dimension' in mesh_attrs:
+        if 'edge_dimension' in mesh_attrs and edge_values:
             data_vars['edge_val'] = xarray.DataArray(_data(tuple(tshape) + (nedge,), 0.75), dims=tdims + ['nMesh2_edge'])
         if time:
             coords['time'] = xarray.DataArray(
